@@ -1,6 +1,7 @@
 import CoapVerif.Lemmas.SendQueue
 import CoapVerif.Lemmas.TimerSim
 import CoapVerif.Lemmas.SchedInv
+import CoapVerif.Lemmas.TimerSimFull
 import CoapVerif.Lemmas.Conserve
 import CoapVerif.Lemmas.PduFixed
 import CoapVerif.Lemmas.MsgHold
@@ -1113,6 +1114,147 @@ pending deadline; after its first 5 events (I/O step at 2000) the wait is 4000 a
 example : ClockOk (Msg.init 0 [{ maxRtx := 1 }]) gevs ∧
     (let r := Msg.prepareCore (Msg.run (Msg.init 0 [{ maxRtx := 1 }]) (gevs.take 5))
      r.1.now = 2000 ∧ r.2 = 4000 ∧ (abs r.1.q).map (·.deadline) = [6000]) := by decide
+
+/-! ### (6') the simulation M ⊑ S for EVERY event sequence: NSTART gate and coincident instants included
+
+`Coap.SimF` (CoapVerif/Lemmas/TimerSimFull.lean).  The two scope conditions of `m_refines_timer_partial` are gone:
+
+* the invariant is `Coap.Sched.FInv` — sessions established, `con_active ≤ NSTART`, and DELAY QUEUES of never-transmitted
+  Confirmables: a message held by NSTART is part of the invariant; its S `send` (and so its schedule) happens when the code
+  really transmits it — from the ACK / RST branch of `coap_dispatch` or from the give-up branch of `coap_retransmit` in the
+  MIDDLE of the due loop;
+* the S events an M event stands for (`SimF.tr`) are computed along the code path, in the order the code processes things:
+  one `tickN now 1` (S fires its earliest due entry) per iteration of the due loop, the `send`s of a drain where the drain
+  happens, `tickN now 0` (the clock has come to `now`, nothing has fired yet) before a `coap_send` / ACK / RST — so what is due
+  at that instant fires when `coap_io_prepare_io` gets to it, as in the code (`tickN` is the one addition to S: a `tick`
+  observed part-way; every S-level theorem of section (5) holds for it);
+* relation `SimF.RelF`: S's clock ≤ M's; S's pending list (ghost `t0` erased) = what M's delta list stands for AS LISTS; the
+  transmissions shown (time, session, mid, retransmission number) are equal AS LISTS; the outcome NACKs shown (time, session,
+  mid, reason) are equal AS LISTS.  Not represented: the interleaving of ONE outcome with the first transmissions it unblocks
+  at the same instant — the code transmits the delayed message and THEN calls the NACK handler (`coap_retransmit`: release,
+  then NACK; RST branch likewise); S reports the outcome and then sends.  `sim_order_witness`: with a message id re-used while
+  the first use is still in flight no translation at all can give the full observation lists in the same order.
+
+Scope `SimF.RunInF` (threaded, decidable): `setNow` (monotone), `prepare`, `submit` of a Confirmable with `T > 0` inside the
+no-wrap range D7 — with or without NSTART room, at any instant —, `rxAck`, `rxRst` at any instant; sessions `SessOk`. -/
+open Coap.Sim Coap.Sched in
+/-- **m_refines_timer_from** (general form): from any M state satisfying the invariant (delay queues allowed) and any S
+state related to it, for EVERY event list: the runs end in related states, the invariant still holds, and every `send` of
+the S run carries the `coap_calc_timeout` value `P` vouches for and the session's MAX_RETRANSMIT. -/
+theorem m_refines_timer_from (par : Nat → Msg.Sess) (P : Nat → Nat → Nat → Prop) (hp : GPar par)
+    (evs : List Msg.Ev) (l : Msg.L) (ts : Timer.TS) (hi : FInv False par P l) (hr : SimF.RelF (mxOf par) l ts)
+    (hin : SimF.RunInF l evs)
+    (hP : ∀ s mid r, Msg.Ev.submit s true mid r ∈ evs →
+      P s mid (calcTimeout (par s).atI (par s).atF (par s).arfI (par s).arfF r)) :
+    FInv False par P (Msg.run l evs) ∧ SimF.RelF (mxOf par) (Msg.run l evs) (Timer.run ts (SimF.trRun l evs)) ∧
+    SimF.SendsOk par P (SimF.trRun l evs) :=
+  let h := SimF.run_simF hp evs l ts hi hr hin (fun h => h.elim) hP
+  ⟨h.1, h.2.1, h.2.2.2⟩
+
+open Coap.Sim Coap.Sched in
+/-- **m_refines_timer** (FULL): from the initial state, any number of sessions sharing the send queue, EVERY event list of
+the alphabet — Confirmables submitted with or without NSTART room, submissions / ACKs / RSTs at instants at which
+retransmissions are due, punctual or late:
+* S's clock is at most M's;
+* S's pending list (ghost `t0` erased) is exactly what M's delta list stands for: absolute deadline, session, message id,
+  initial timeout `T`, retransmission counter, MAX_RETRANSMIT — in the same order;
+* both have shown the same transmissions (time, session, mid, retransmission number), in the same order;
+* both have shown the same outcome NACKs (time, session, mid, reason), in the same order. -/
+theorem m_refines_timer (now0 : Nat) (sess : List Msg.Sess) (evs : List Msg.Ev)
+    (hs : ∀ se ∈ sess, SessOk se) (hin : SimF.RunInF (Msg.init now0 sess) evs) :
+    let l := Msg.run (Msg.init now0 sess) evs
+    let ts := Timer.run (Timer.init now0) (SimF.trRun (Msg.init now0 sess) evs)
+    ts.now ≤ l.now ∧
+    ts.pend.map er = absP (fun s => (parOf sess s).maxRtx) l.q.base l.q.nodes ∧
+    SimF.txsS ts.outs = SimF.txsM l.out ∧ SimF.nksS ts.outs = SimF.nksM l.out := by
+  intro l ts
+  have := (SimF.run_simF (pu := False) (P := fun _ _ _ => True) (gpar_of sess hs) evs _ (Timer.init now0)
+    (finv_init False _ now0 sess hs) (SimF.relF_init _ now0 sess) hin (fun h => h.elim) (fun _ _ _ _ => trivial)).2.1
+  exact ⟨this.now, this.pend, this.txs, this.nacks⟩
+
+open Coap.Sim Coap.Sched in
+/-- **m_schedule_via_timer** (FULL — `retransmit_schedule` lifted from S to M THROUGH the simulation, NSTART-delayed messages
+included): in every punctual run over the alphabet, EVERY transmission `tx t s mid k con` M ever emits is a Confirmable,
+belongs to a `coap_send` of (s, mid) in the run with PRNG byte `r`, its first transmission `tx t0 s mid 0` is in the outputs
+— for a message that waited for an NSTART slot, `t0` is the instant it left the delay queue —, `t = t0 + (2^k − 1)·T` with
+`T = coap_calc_timeout(session parameters, r)` drawn ONCE at that submission, and `k ≤ MAX_RETRANSMIT`. -/
+theorem m_schedule_via_timer (now0 : Nat) (sess : List Msg.Sess) (evs : List Msg.Ev)
+    (hs : ∀ se ∈ sess, SessOk se) (hin : SimF.RunInF (Msg.init now0 sess) evs) (hpu : Punctual (Msg.init now0 sess) evs) :
+    ∀ t s mid k con, Msg.Out.tx t s mid k con ∈ (Msg.run (Msg.init now0 sess) evs).out →
+      con = true ∧ ∃ t0 r, Msg.Ev.submit s true mid r ∈ evs ∧
+        Msg.Out.tx t0 s mid 0 true ∈ (Msg.run (Msg.init now0 sess) evs).out ∧
+        t = sched t0 (calcTimeout (parOf sess s).atI (parOf sess s).atF (parOf sess s).arfI (parOf sess s).arfF r) k ∧
+        k ≤ (parOf sess s).maxRtx := by
+  intro t s mid k con hmem
+  obtain ⟨_, hr, hok, hsend⟩ := SimF.run_simF (pu := True) (P := fun s mid T => ∃ r, Msg.Ev.submit s true mid r ∈ evs ∧
+      T = calcTimeout (parOf sess s).atI (parOf sess s).atF (parOf sess s).arfI (parOf sess s).arfF r)
+    (gpar_of sess hs) evs _ (Timer.init now0) (finv_init True _ now0 sess hs) (SimF.relF_init _ now0 sess) hin
+    (fun _ => hpu) (fun s mid r h => ⟨r, h, rfl⟩)
+  have hor := Timer.run_orig (Q := fun s mid T mx => (∃ r, Msg.Ev.submit s true mid r ∈ evs ∧
+      T = calcTimeout (parOf sess s).atI (parOf sess s).atF (parOf sess s).arfI (parOf sess s).arfF r) ∧
+      mx = (parOf sess s).maxRtx) _ (Timer.init now0) (Timer.orig_init _ now0) hsend
+  obtain ⟨hc, t0, T, mx, hS⟩ := SimF.tx_M_to_S hr.txs hmem
+  obtain ⟨hsch, hk⟩ := retransmit_schedule now0 _ (hok trivial) t s mid k t0 T mx hS
+  obtain ⟨⟨⟨r, hsub, hT⟩, hmx⟩, h0⟩ := hor.2 t s mid k t0 T mx hS
+  exact ⟨hc, t0, r, hsub, SimF.tx_S_to_M hr.txs h0, by rw [← hT]; exact hsch, by rw [← hmx]; exact hk⟩
+
+open Coap.Sim Coap.Sched in
+/-- **m_single_outcome_via_timer** (FULL — `single_outcome` lifted from S to M THROUGH the simulation; every event list,
+punctual or late, any number of messages and sessions, NSTART-delayed messages included): for every (session, mid), the
+number of FIRST transmissions of the Confirmable — `coap_send`s that passed the NSTART gate at once plus messages that left
+the delay queue — equals the number of outcome NACK-handler calls (TOO_MANY_RETRIES or RST, carrying the sent PDU) plus the
+number of silent completions (an arriving ACK that found the message in the send queue) plus the number of nodes still in the
+send queue.  So a message that has been transmitted is — at every moment — exactly one of: pending, completed by its ACK,
+or reported by ONE NACK.  (`m_single_outcome` adds: accepted = first transmissions + still delayed.) -/
+theorem m_single_outcome_via_timer (now0 : Nat) (sess : List Msg.Sess) (evs : List Msg.Ev)
+    (hs : ∀ se ∈ sess, SessOk se) (hin : SimF.RunInF (Msg.init now0 sess) evs) (s mid : Nat) :
+    SimF.tx0C s mid (Msg.run (Msg.init now0 sess) evs).out =
+      nackC s mid (Msg.run (Msg.init now0 sess) evs).out + ackC s mid (Msg.init now0 sess) evs +
+        pendC s mid (Msg.run (Msg.init now0 sess) evs).q.nodes :=
+  SimF.conserve_simF (gpar_of sess hs) s mid now0 evs _ (finv_init False _ now0 sess hs)
+    (SimF.relF_init _ now0 sess) hin
+
+/-- witness run with coincident instants: two sessions; at 2000 the retransmission of message (0,1) is due, and BEFORE the I/O
+loop runs a `coap_send` on session 1 and an RST for (0,1) arrive; then the I/O step -/
+def cevs : List Msg.Ev :=
+  [.submit 0 true 1 0, .submit 0 true 2 255, .setNow 2000, .submit 1 true 7 255, .rxRst 0 1, .prepare, .setNow 5000, .prepare]
+
+open Coap.Sim Coap.Sched in
+/-- non-vacuity of section (6'): the gated witness `gevs` (give-up in the due loop lets the delayed message in) and the
+coincident-instants witness `cevs` (message 2 of session 0 waits for NSTART; RST for message 1 at the instant its
+retransmission is due lets message 2 in) are in scope `RunInF`, punctual, and NOT in the scope `RunIn` of the partial
+theorems; pending lists, transmission lists and NACK lists of S and M agree -/
+example : (∀ se ∈ [({ maxRtx := 1 } : Msg.Sess)], SessOk se) ∧ SimF.RunInF (Msg.init 0 [{ maxRtx := 1 }]) gevs ∧
+    Punctual (Msg.init 0 [{ maxRtx := 1 }]) gevs ∧ ¬ RunIn (Msg.init 0 [{ maxRtx := 1 }]) gevs ∧
+    SimF.RunInF (Msg.init 0 [{}, {}]) cevs ∧ Punctual (Msg.init 0 [{}, {}]) cevs ∧ ¬ RunIn (Msg.init 0 [{}, {}]) cevs ∧
+    SimF.txsM (Msg.run (Msg.init 0 [{}, {}]) cevs).out =
+      [.tx 5000 0 2 1 true, .tx 5000 1 7 1 true, .tx 2000 0 2 0 true, .tx 2000 1 7 0 true, .tx 0 0 1 0 true] ∧
+    SimF.nksM (Msg.run (Msg.init 0 [{}, {}]) cevs).out = [.nackRst 2000 0 1] ∧
+    SimF.txsS (Timer.run (Timer.init 0) (SimF.trRun (Msg.init 0 [{}, {}]) cevs)).outs =
+      SimF.txsM (Msg.run (Msg.init 0 [{}, {}]) cevs).out ∧
+    SimF.tx0C 0 2 (Msg.run (Msg.init 0 [{}, {}]) cevs).out = 1 ∧
+    pendC 0 2 (Msg.run (Msg.init 0 [{}, {}]) cevs).q.nodes = 1 := by decide
+
+/-- witness for the order remark: ONE session, NSTART 1; message id 5 is submitted, retransmitted at 2000 (next deadline 6000),
+submitted AGAIN while the first use is in flight (held by NSTART), and an RST for id 5 arrives at 2500 -/
+def oevs : List Msg.Ev :=
+  [.submit 0 true 5 0, .setNow 2000, .prepare, .submit 0 true 5 0, .setNow 2500, .rxRst 0 5]
+
+open Coap.Sim Coap.Sched in
+/-- **sim_order_witness** (why the relation compares the transmission list and the NACK list, not their interleaving): the code
+removes the first use of id 5 from the send queue, transmits the second use (`coap_session_connected`), THEN calls the NACK
+handler: `tx 2500 (0,5) 0` before `nack RST 2500 (0,5)`.  S's `rst` takes the first pending entry of (0,5) in deadline order:
+had the `send` of the second use (deadline 4500) come first, `rst` would remove IT and leave the first use (deadline 6000)
+pending; with `rst` first, the NACK precedes the transmission.  The transmission lists and the NACK lists agree, the pending
+lists agree, the full observation lists do not. -/
+theorem sim_order_witness :
+    let l := Msg.run (Msg.init 0 [{}]) oevs
+    let ts := Timer.run (Timer.init 0) (SimF.trRun (Msg.init 0 [{}]) oevs)
+    SimF.RunInF (Msg.init 0 [{}]) oevs ∧
+    l.out.filterMap obsM = [.nackRst 2500 0 5, .tx 2500 0 5 0 true, .tx 2000 0 5 1 true, .tx 0 0 5 0 true] ∧
+    ts.outs.filterMap obsS = [.tx 2500 0 5 0 true, .nackRst 2500 0 5, .tx 2000 0 5 1 true, .tx 0 0 5 0 true] ∧
+    SimF.txsS ts.outs = SimF.txsM l.out ∧ SimF.nksS ts.outs = SimF.nksM l.out ∧
+    ts.pend.map er = absP (fun _ => 4) l.q.base l.q.nodes ∧ ts.pend.map (·.1) = [4500] := by decide
 
 /-! ## (8) no function of the model ever modifies a node's PDU fields or its stored timeout — whole alphabet, no scope -/
 open Coap.Pdu in
